@@ -33,7 +33,7 @@ def build(tmp, san=True):
     os.makedirs(os.path.join(tmp, 'gtwrap'), exist_ok=True)
     shutil.copy(os.path.join(REPO, 'matlab.h'), os.path.join(tmp, 'gtwrap', 'matlab.h'))
     exe = os.path.join(tmp, 'mh_san' if san else 'mh_plain')
-    cmd = ['clang++'] + CXXFLAGS + (SAN if san else []) + ['-I', os.path.join(VERIF, 'cxx', 'mockmex'), '-I', tmp,
+    cmd = ['clang++'] + CXXFLAGS + (SAN if san else ['-gdwarf-4']) + ['-I', os.path.join(VERIF, 'cxx', 'mockmex'), '-I', tmp,
                                                           os.path.join(VERIF, 'cxx', 'mh_driver.cpp'),
                                                           os.path.join(VERIF, 'cxx', 'mockmex', 'mockmex.cpp'), '-o', exe]
     p = subprocess.run(cmd, stdout=subprocess.PIPE, stderr=subprocess.PIPE, timeout=900)
@@ -67,6 +67,10 @@ def worker(ctx):
                 q = subprocess.run(['valgrind', '--error-exitcode=97', '--track-origins=yes', '-q', exe2, str(seed), '500', '60'],
                                    stdout=subprocess.PIPE, stderr=subprocess.PIPE, timeout=ctx.plan['watchdog_s'] - 120)
                 acc.count('valgrind_runs')
+                if b'DONE' not in q.stdout and q.returncode != 97:
+                    # the tool could not run the binary (e.g. unsupported debug-info format): inconclusive, not a violation
+                    acc.inconclusive.append('valgrind could not run the driver: ' + q.stderr.decode('utf8', 'replace')[-300:])
+                    return
                 if q.returncode == 97 or b'uninitialised' in q.stderr:
                     acc.violation({'kind': 'valgrind', 'seed': seed}, {'what': 'valgrind memcheck report while running matlab.h conversions',
                                                                        'report': q.stderr.decode('utf8', 'replace')[-1500:]})
